@@ -338,12 +338,24 @@ def hook_obligations(rep):
             comp.known_not_none = True
             return [el, comp], {}
 
-        def post(ex, o):
+        # a hook runs while the statement is compiled, i.e. inside the render step of get_exec_params: what it raises meets the same handler as any
+        # other internal error of the translation (C17.fallback.internal.render.*)
+        hst = [st for (en, site, fb, dn), st in HANDLER.items() if en == 'internal' and site == 'render']
+        converted = bool(hst) and all(st == PROVED for st in hst)
+        handler_open = bool(hst) and not converted and not any(st == FAILED for st in hst)
+        other = []
+
+        def post(ex, o, other=other):
             from sqlalchemy.exc import SQLAlchemyError
             if o.kind == 'raise' and not issubclass(o.value, (NotImplementedError, SQLAlchemyError)):
+                other.append(o.value.__name__)
+                if converted or handler_open:
+                    return None
                 return f'raises {o.value.__name__} for some payload string'
             return None
         v = pysym.verify(RENDER, fd.name, make_args, post, node=fd)
+        if v.status == PROVED and other and handler_open:
+            v = pysym.Verdict(UNDECIDED, f'raises {sorted(set(other))} and the handler contract C17.fallback.internal.render.* is undecided', v.seconds)
 
         def rp(dialects=dialects):
             for sql in ("select interval '90' from t", "select interval '' from t", "select interval '1 day' from t", "select a from t where b > c - interval '01:30:00'"):
@@ -353,7 +365,7 @@ def hook_obligations(rep):
                         if r['fires']:
                             return r
             return {'input': "select interval '90' from t", 'dialect': 'mindsdb', 'fires': False, 'observed': 'renders for every dialect name'}
-        _emit(rep, f'C17.raise.hook.{fd.name}', v, f'{RENDER}:{fd.name}', 'requires element.info: str; raises subset {NotImplementedError, SQLAlchemyError}', replay=rp)
+        _emit(rep, f'C17.raise.hook.{fd.name}', v, f'{RENDER}:{fd.name}', 'requires element.info: str; raises subset {NotImplementedError, SQLAlchemyError}, or anything else when the handler of get_exec_params converts it (C17.fallback.internal.render.*)', replay=rp)
 
 
 # ------------------------------------------------------------------ frame: the caller's tree is not written
